@@ -469,6 +469,7 @@ impl LpgStore {
         labels: &[&str],
         properties: impl IntoIterator<Item = (impl Into<PropertyKey>, impl Into<Value>)>,
     ) -> NodeId {
+        self.needs_stats_recompute.store(true, Ordering::Relaxed);
         self.create_node_with_props_versioned(
             labels,
             properties,
